@@ -9,6 +9,7 @@
  *   part HEX     push a piece of a message (same retry rule), no termination
  *   fin          terminate the current message
  *   wire N       move up to N finished bytes from the writer ring to the reader ring
+ *   raw HEX      put arbitrary bytes into the reader ring (malformed input, used by the C03 check)
  *   recv         one mpt_queue_recv (a delivered message is printed)
  *   drain        wire + recv until nothing moves any more
  * tokens: <status>:<msg>,<msg>...   status = ok | fail<rc> ; messages received during the op ("-" none)
@@ -136,6 +137,12 @@ static void run_case(int ntok, char **tok)
 		}
 		else if (!strcmp(op, "fin")) rc = push_all(0, 0);
 		else if (!strcmp(op, "wire")) { do_wire(vh_int(tok[t++])); }
+		else if (!strcmp(op, "raw")) {
+			/* arbitrary bytes into the reader ring (the reader half of do_wire) */
+			size_t n; uint8_t *d = vh_unhex(tok[t++], &n);
+			if (n && (r.data.max - r.data.len >= n || mpt_queue_prepare(&r.data, n))) mpt_qpush(&r.data, n, d);
+			free(d);
+		}
 		else if (!strcmp(op, "recv")) { do_recv(); }
 		else if (!strcmp(op, "drain")) { pump(); }
 		else if (!strcmp(op, "peek") || !strcmp(op, "peekn")) {
